@@ -141,6 +141,8 @@ def build(scn, trace, fault=None, script=None):
             rec["sd"] = float(np.asarray(ret[1]).ravel()[0])
         else:
             rec["y"] = float(np.asarray(ret).ravel()[0])
+        if scn["target"].get("mutates") and isinstance(x, np.ndarray) and x.flags.writeable:
+            x[...] = x * 0.0 + 12345.678  # in-place work on the argument
         return ret
 
     # the target may be handed to BADS as a plain function, a callable object or a bound method; the object counts the
